@@ -6,221 +6,9 @@
 (* On the model TLC checks that the denotation is defined (value or stated     *)
 (* error, never unspecified) for every generated program: the oracle exists.   *)
 (***************************************************************************)
-EXTENDS Lang, Json
+EXTENDS LangGen, Json
 
-CONSTANTS Slots, Depth, Envs
-
-\* ---- declarations -------------------------------------------------------------
-H1 == [i \in 1..28 |-> 17]       \* 0x1111..: policy Pol, asset Tok
-H2 == [i \in 1..28 |-> 34]
-KeyHash == [i \in 1..28 |-> 90 + (i % 5)]
-Decls == [parties |-> <<[name |-> "Sender", key |-> "sender"], [name |-> "Receiver", key |-> "receiver"],
-                        [name |-> "MyParty", key |-> "myparty"]>>,
-          envs |-> <<[name |-> "e_int", key |-> "e_int", ty |-> "Int"]>>,
-          policies |-> <<[name |-> "Pol", hash |-> H1]>>,
-          assets |-> <<[name |-> "Tok", policy |-> H1, asset_name |-> <<97>>]>>,
-          types |-> <<[name |-> "Rec", record |-> TRUE,
-                       cases |-> <<[name |-> "Default", fields |-> <<[name |-> "f1", ty |-> "Int"], [name |-> "f2", ty |-> "Bytes"]>>]>>],
-                      [name |-> "Var", record |-> FALSE,
-                       cases |-> <<[name |-> "A", fields |-> <<[name |-> "x", ty |-> "Int"], [name |-> "y", ty |-> "Bytes"]>>],
-                                   [name |-> "B", fields |-> <<>>],
-                                   [name |-> "C", fields |-> <<[name |-> "z", ty |-> "Int"]>>]>>]>>]
-Params == <<[name |-> "n", key |-> "n", ty |-> "Int"], [name |-> "Mixed", key |-> "mixed", ty |-> "Int"],
-            [name |-> "b", key |-> "b", ty |-> "Bytes"]>>
-
-\* ---- syntax helpers -------------------------------------------------------------
-Lit(i) == [k |-> "int", n |-> FromInt(i)]
-Hex(bs) == [k |-> "hex", v |-> bs]
-Str(bs) == [k |-> "str", v |-> bs]
-Id(kind, name, key) == [k |-> "id", kind |-> kind, name |-> name, key |-> key]
-PN == Id("param", "n", "n")
-PM == Id("param", "Mixed", "mixed")
-PB == Id("param", "b", "b")
-EInt == Id("env", "e_int", "e_int")
-L1 == Id("local", "l1", "l1")
-Sender == Id("party", "Sender", "sender")
-Receiver == Id("party", "Receiver", "receiver")
-MyParty == Id("party", "MyParty", "myparty")
-Pol == Id("policy", "Pol", "pol")
-FeesE == Id("fees", "fees", "fees")
-Source == Id("input", "source", "source")
-Op(k, a, b) == [k |-> k, a |-> a, b |-> b]
-U(k, a) == [k |-> k, a |-> a]
-Paren(a) == U("paren", a)
-AdaE(a) == U("ada", a)
-TokE(a) == [k |-> "tok", name |-> "Tok", a |-> a]
-AnyA(p, n, a) == [k |-> "anyasset", p |-> p, n |-> n, amt |-> a]
-Prop(a, f) == [k |-> "prop", a |-> a, field |-> f]
-CtorE(ty, case, fields, spread) == [k |-> "ctor", ty |-> ty, case |-> case, fields |-> fields, spread |-> spread]
-F(n, e) == [name |-> n, e |-> e]
-TipSlot == [k |-> "tip_slot"]
-
-Int0 == {Lit(7), PN, PM, EInt, L1, TipSlot}
-Int1 == Int0
-        \cup {Op(o, a, b) : o \in {"add", "sub"}, a \in {PN, Lit(7)}, b \in {PM, Lit(2), L1}}
-        \cup {U("neg", a) : a \in {PN, Lit(7)}}
-        \cup {Op("sub", Op("sub", PN, PM), Lit(2)),              \* n - Mixed - 2 is (n - Mixed) - 2
-              Op("sub", PN, Paren(Op("sub", PM, Lit(2)))),
-              Op("sub", Paren(Op("sub", PN, PM)), Lit(2)),
-              Op("add", PN, Op("sub", PM, Lit(2))),
-              Op("sub", U("neg", PN), PM),
-              U("neg", Paren(Op("sub", PN, PM))),
-              U("slot_to_time", PN), U("slot_to_time", TipSlot), U("time_to_slot", U("slot_to_time", PN)),
-              Op("add", TipSlot, PN)}
-IntD == {Prop(Source, "f1"), Op("add", Prop(Source, "f1"), PN)}        \* only meaningful where a datum is read
-
-Asset0 == {AdaE(PN), AdaE(Lit(7)), TokE(Lit(2)), FeesE, Source, AnyA(Hex(H2), Str(<<98>>), PN)}
-Asset1 == Asset0
-          \cup {Op("sub", Op("sub", Source, AdaE(PN)), FeesE),
-                Op("sub", Source, Paren(Op("add", AdaE(PN), FeesE))),
-                Op("sub", Op("sub", Op("sub", Source, AdaE(PN)), TokE(Lit(2))), FeesE),
-                Op("add", AdaE(PN), TokE(Lit(2))), Op("add", TokE(Lit(2)), AdaE(PN)),
-                Op("add", AdaE(PN), AdaE(PM)), Op("sub", AdaE(PN), AdaE(PM)),
-                Op("add", AdaE(PN), AnyA(Hex(H2), Str(<<98>>), PM)),
-                Op("sub", Op("add", AdaE(PN), TokE(Lit(2))), TokE(Lit(2))),
-                AdaE(Op("add", PN, PM)), AdaE(L1), AdaE(Prop(Source, "f1")),
-                AnyA(Pol, Str(<<98>>), Lit(1)), AnyA(Hex(H2), Hex(<<1, 2>>), PN),
-                AnyA(Hex(H2), Prop(Source, "f2"), Prop(Source, "f1")),
-                Op("sub", Op("sub", Source, FeesE), AdaE(PN)),
-                Op("sub", Source, Op("add", FeesE, AdaE(PN)))}
-Mint1 == {TokE(Lit(3)), TokE(PN), AnyA(Hex(H2), Str(<<98>>), Lit(5)), Op("add", TokE(Lit(3)), AnyA(Hex(H2), Str(<<98>>), Lit(5))),
-          AnyA(Pol, Str(<<99>>), PM), TokE(Op("sub", PN, PN))}
-
-Bytes1 == {Hex(<<1, 2>>), PB, Op("concat", PB, Hex(<<1>>)), Op("concat", Hex(<<1>>), Hex(<<2>>))}
-Str1 == {Str(<<104, 105>>), Op("concat", Str(<<104>>), Str(<<105>>)), Op("concat", Str(<<110>>), PN)}
-
-RecAll == CtorE("Rec", "", <<F("f1", PN), F("f2", PB)>>, Absent)
-Datum1 == {RecAll,
-           CtorE("Rec", "", <<F("f2", PB), F("f1", L1)>>, Absent),              \* written out of declaration order
-           CtorE("Rec", "", <<F("f1", PN)>>, Source),                          \* f2 from the spread
-           CtorE("Rec", "", <<F("f2", Hex(<<9>>))>>, Source),                  \* f1 from the spread
-           CtorE("Rec", "", <<>>, Source),
-           CtorE("Var", "A", <<F("x", Op("sub", Op("sub", PN, PM), Lit(2))), F("y", Op("concat", PB, Hex(<<1>>)))>>, Absent),
-           CtorE("Var", "B", <<>>, Absent),
-           CtorE("Var", "C", <<F("z", Prop(Source, "f1"))>>, Absent),
-           [k |-> "unit"], Source, PN, PB, Prop(Source, "f2"),
-           [k |-> "list", items |-> <<Lit(1), PN, Prop(Source, "f1")>>],
-           [k |-> "list", items |-> <<>>],
-           [k |-> "map", pairs |-> <<[a |-> Lit(1), b |-> PB], [a |-> Lit(2), b |-> Hex(<<7>>)]>>],
-           [k |-> "bool", flag |-> TRUE], [k |-> "bool", flag |-> FALSE],
-           [k |-> "index", a |-> [k |-> "list", items |-> <<Lit(5), PN>>], i |-> Lit(1)]}
-DatumNoSrc == {RecAll, CtorE("Rec", "", <<F("f2", PB), F("f1", L1)>>, Absent),
-               CtorE("Var", "A", <<F("x", Op("sub", Op("sub", PN, PM), Lit(2))), F("y", Op("concat", PB, Hex(<<1>>)))>>, Absent),
-               CtorE("Var", "B", <<>>, Absent), [k |-> "unit"], PN, PB,
-               [k |-> "list", items |-> <<Lit(1), PN>>], [k |-> "map", pairs |-> <<[a |-> Lit(1), b |-> PB]>>],
-               [k |-> "bool", flag |-> TRUE]}
-Addr1 == {Sender, Receiver, MyParty, Pol}
-Signer1 == {Sender, MyParty, Hex(KeyHash)}
-Ref1 == {[k |-> "utxo_ref", txid |-> [i \in 1..32 |-> 7], index |-> 2]}
-
-\* ---- the base transaction and its slots ------------------------------------------
-Inp(name, many, from, min, ref, red, dis) ==
-    [name |-> name, key |-> name, many |-> many, from |-> from, min_amount |-> min, ref |-> ref, redeemer |-> red, datum_is |-> dis]
-Out(name, opt, to, amount, datum) == [name |-> name, optional |-> opt, to |-> to, amount |-> amount, datum |-> datum]
-BaseInput == Inp("source", FALSE, Sender, AdaE(PN), Absent, Absent, "Rec")
-BaseTx == [params |-> Params,
-           locals |-> <<[name |-> "l1", e |-> Op("add", PN, Lit(1))]>>,
-           inputs |-> <<BaseInput>>,
-           outputs |-> <<Out("", FALSE, Receiver, AdaE(PN), Absent)>>,
-           mints |-> <<>>, burns |-> <<>>, validity |-> Absent, signers |-> Absent, metadata |-> Absent,
-           references |-> <<>>, collateral |-> Absent, withdrawals |-> <<>>]
-
-\* base for the boundary slots: nothing but the varied slot depends on n
-BaseB == [BaseTx EXCEPT !.inputs = <<[BaseInput EXCEPT !.min_amount = AdaE(Lit(1))]>>,
-                        !.outputs = <<Out("", FALSE, Receiver, AdaE(Lit(2000000)), Absent)>>]
-
-SlotUniverse(s) ==
-    CASE s \in {"out_amount", "second_out", "optional_out", "local_amount"} -> IF Depth = 0 THEN Asset0 ELSE Asset1
-      \* the analyzer only admits integer literals and Int-typed names as metadata labels
-      [] s = "meta_key" -> {Lit(7), Lit(674), PN, PM}
-      [] s \in {"since", "until"} -> (IF Depth = 0 THEN Int0 ELSE Int1) \ {U("neg", PN), U("neg", Lit(7)), Op("sub", U("neg", PN), PM), U("neg", Paren(Op("sub", PN, PM)))}
-      [] s \in {"out_datum", "mint_redeemer"} -> Datum1 \cup {CtorE("Var", "C", <<F("z", e)>>, Absent) : e \in (IF Depth = 0 THEN {} ELSE Int1 \cup IntD)}
-      \* the redeemer of `source` itself: expressions that do not read `source` (a block reading its own datum is a corner the generator leaves out)
-      [] s = "input_redeemer" -> DatumNoSrc \cup {CtorE("Var", "C", <<F("z", e)>>, Absent) : e \in (IF Depth = 0 THEN {} ELSE Int1)}
-      [] s = "out_to" -> Addr1
-      [] s = "signer" -> Signer1
-      [] s \in {"mint_amount", "burn_amount"} -> Mint1
-      [] s = "meta_value" -> Bytes1 \cup Str1 \cup (IF Depth = 0 THEN Int0 ELSE Int1)
-      [] s = "reference" -> Ref1
-      [] s = "min_amount" -> {AdaE(PN), Op("add", AdaE(PN), FeesE), Op("add", AdaE(PN), TokE(Lit(1))), TokE(Lit(2))}
-      [] s = "mint_burn" -> {TokE(Lit(3)), TokE(PN), AnyA(Hex(H2), Str(<<98>>), Lit(5))}
-      \* ---- C02: every numeric ledger field x the expression shapes that produce it
-      [] s = "b_out_amount" -> {AdaE(PN), Op("add", AdaE(PN), AdaE(PM)), Op("sub", AdaE(PN), AdaE(PM)), AdaE(Op("add", PN, PM)),
-                                AdaE(U("neg", PN)), U("neg", AdaE(PN)), TokE(PN), Op("add", AdaE(Lit(1000000)), TokE(PN)),
-                                Op("add", AdaE(Lit(1000000)), AnyA(Hex(H2), Str(<<98>>), Op("sub", PN, PM))),
-                                Op("sub", Op("sub", Source, AdaE(PN)), FeesE), Op("sub", Source, TokE(PN))}
-      [] s \in {"b_mint", "b_burn"} -> {TokE(PN), TokE(Op("sub", PN, PM)), TokE(Op("add", PN, PM)), AnyA(Hex(H2), Str(<<98>>), U("neg", PN))}
-      [] s \in {"b_since", "b_until"} -> {PN, Op("add", PN, PM), Op("sub", PN, PM), U("neg", PN)}
-      [] s = "b_meta_value" -> {PN, Op("add", PN, PM), U("neg", PN)}
-      [] s = "b_meta_key" -> {PN}
-      [] s \in {"b_datum", "b_redeemer"} -> {CtorE("Var", "C", <<F("z", e)>>, Absent) : e \in {PN, Op("add", PN, PM), Op("sub", PN, PM), U("neg", PN)}}
-                                              \cup {[k |-> "list", items |-> <<PN, U("neg", PN)>>]}
-      [] s = "b_index" -> {[k |-> "index", a |-> [k |-> "list", items |-> <<Lit(5), Lit(6)>>], i |-> PN]}
-      [] s = "b_balanced" -> {Op("sub", Op("sub", Source, AdaE(PN)), FeesE),                 \* plain transfer
-                              Op("sub", Op("add", Op("sub", Source, AdaE(PN)), TokE(Lit(3))), FeesE),   \* keeps what it mints
-                              Op("sub", Op("sub", Op("sub", Source, AdaE(PN)), TokE(Lit(2))), FeesE)}   \* burns 2
-
-WithSlot(s, e) ==
-    CASE s = "out_amount" -> [BaseTx EXCEPT !.outputs = <<Out("", FALSE, Receiver, e, Absent)>>]
-      [] s = "second_out" -> [BaseTx EXCEPT !.outputs = Append(@, Out("change", FALSE, Sender, e, Absent))]
-      [] s = "optional_out" -> [BaseTx EXCEPT !.outputs = <<Out("maybe", TRUE, Sender, e, Absent), Out("", FALSE, Receiver, AdaE(PN), Absent)>>]
-      [] s = "local_amount" -> [BaseTx EXCEPT !.locals = Append(@, [name |-> "amt", e |-> e]),
-                                             !.outputs = <<Out("", FALSE, Receiver, Id("local", "amt", "amt"), Absent)>>]
-      [] s = "out_datum" -> [BaseTx EXCEPT !.outputs = <<Out("named", FALSE, Receiver, AdaE(PN), e)>>]
-      [] s = "out_to" -> [BaseTx EXCEPT !.outputs = <<Out("", FALSE, e, AdaE(PN), Absent)>>]
-      [] s = "since" -> [BaseTx EXCEPT !.validity = [k |-> "some", since |-> e, until |-> Absent]]
-      [] s = "until" -> [BaseTx EXCEPT !.validity = [k |-> "some", since |-> TipSlot, until |-> e]]
-      [] s = "mint_amount" -> [BaseTx EXCEPT !.mints = <<[amount |-> e, redeemer |-> Absent]>>]
-      [] s = "burn_amount" -> [BaseTx EXCEPT !.burns = <<[amount |-> e, redeemer |-> [k |-> "unit"]]>>]
-      [] s = "mint_burn" -> [BaseTx EXCEPT !.mints = <<[amount |-> TokE(Lit(3)), redeemer |-> Absent], [amount |-> e, redeemer |-> Absent]>>,
-                                           !.burns = <<[amount |-> e, redeemer |-> Absent]>>]
-      [] s = "mint_redeemer" -> [BaseTx EXCEPT !.mints = <<[amount |-> TokE(Lit(3)), redeemer |-> e]>>]
-      [] s = "input_redeemer" -> [BaseTx EXCEPT !.inputs = <<[BaseInput EXCEPT !.redeemer = e]>>]
-      [] s = "signer" -> [BaseTx EXCEPT !.signers = [k |-> "some", items |-> <<e, Hex(KeyHash)>>]]
-      [] s = "meta_value" -> [BaseTx EXCEPT !.metadata = [k |-> "some", items |-> <<[key |-> Lit(1), value |-> e], [key |-> Lit(674), value |-> Str(<<120>>)]>>]]
-      [] s = "meta_key" -> [BaseTx EXCEPT !.metadata = [k |-> "some", items |-> <<[key |-> e, value |-> Hex(<<1>>)]>>]]
-      [] s = "reference" -> [BaseTx EXCEPT !.references = <<[name |-> "rf", ref |-> e]>>]
-      [] s = "b_out_amount" -> [BaseB EXCEPT !.outputs = <<Out("", FALSE, Receiver, e, Absent)>>]
-      [] s = "b_mint" -> [BaseB EXCEPT !.mints = <<[amount |-> e, redeemer |-> Absent]>>]
-      [] s = "b_burn" -> [BaseB EXCEPT !.burns = <<[amount |-> e, redeemer |-> Absent]>>]
-      [] s = "b_since" -> [BaseB EXCEPT !.validity = [k |-> "some", since |-> e, until |-> Absent]]
-      [] s = "b_until" -> [BaseB EXCEPT !.validity = [k |-> "some", since |-> Absent, until |-> e]]
-      [] s = "b_meta_value" -> [BaseB EXCEPT !.metadata = [k |-> "some", items |-> <<[key |-> Lit(1), value |-> e]>>]]
-      [] s = "b_meta_key" -> [BaseB EXCEPT !.metadata = [k |-> "some", items |-> <<[key |-> e, value |-> Hex(<<1>>)]>>]]
-      [] s = "b_datum" -> [BaseB EXCEPT !.outputs = <<Out("named", FALSE, Receiver, AdaE(Lit(2000000)), e)>>]
-      [] s = "b_redeemer" -> [BaseB EXCEPT !.mints = <<[amount |-> TokE(Lit(3)), redeemer |-> e]>>]
-      [] s = "b_index" -> [BaseB EXCEPT !.metadata = [k |-> "some", items |-> <<[key |-> Lit(1), value |-> e]>>]]
-      [] s = "b_balanced" ->
-            [BaseTx EXCEPT !.outputs = <<Out("", FALSE, Receiver, AdaE(PN), Absent), Out("change", FALSE, Sender, e, Absent)>>,
-                           !.mints = IF e = Op("sub", Op("add", Op("sub", Source, AdaE(PN)), TokE(Lit(3))), FeesE)
-                                     THEN <<[amount |-> TokE(Lit(3)), redeemer |-> Absent]>> ELSE <<>>,
-                           !.burns = IF e = Op("sub", Op("sub", Op("sub", Source, AdaE(PN)), TokE(Lit(2))), FeesE)
-                                     THEN <<[amount |-> TokE(Lit(2)), redeemer |-> Absent]>> ELSE <<>>]
-      [] s = "min_amount" -> [BaseTx EXCEPT !.inputs = <<[BaseInput EXCEPT !.min_amount = e]>>,
-                                            !.collateral = [k |-> "some", from |-> Sender, min_amount |-> AdaE(Lit(5)), ref |-> Absent]]
-
-\* ---- environments -----------------------------------------------------------------
-AddrOf(b) == [k |-> "address", v |-> <<96>> \o [i \in 1..28 |-> b]]
-Utxo(t, ix, addrByte, lovelace, tok, datum) ==
-    [ref |-> [txid |-> [i \in 1..32 |-> t], index |-> ix], address |-> <<96>> \o [i \in 1..28 |-> addrByte],
-     assets |-> <<[c |-> Naked, n |-> FromInt(lovelace)]>> \o (IF tok > 0 THEN <<[c |-> Defined(H1, <<97>>), n |-> FromInt(tok)]>> ELSE <<>>),
-     datum |-> datum]
-RecDatum == [k |-> "struct", ctor |-> 0, fields |-> <<Num(FromInt(11)), [k |-> "bytes", v |-> <<5, 6>>]>>]
-\* boundary values for C02: id = 100 * (1: Mixed = 1, 2: Mixed = -1, 3: Mixed = 0) + index into Bounds
-Bounds == <<Zero, One, Neg(One), Two32, Neg(Two32), FromInt(2147483647), I64Max, Two63, I64Min, Sub(I64Min, One),
-            U64Max, Two64, Neg(Two64), Sub(Neg(Two64), One), I128Max, I128Min, Sub(I128Max, One), FromInt(5000000)>>
-EnvOf(id) ==
-    LET n == IF id >= 100 THEN Bounds[id % 100]
-             ELSE FromInt(IF id = 1 THEN 3000000 ELSE IF id = 2 THEN 7 ELSE 1000000)
-        m == IF id >= 300 THEN 0 ELSE IF id >= 200 THEN -1 ELSE IF id >= 100 THEN 1
-             ELSE IF id = 1 THEN 2 ELSE IF id = 2 THEN 1 ELSE 0
-    IN  [args |-> [n |-> Num(n), mixed |-> Num(FromInt(m)), b |-> [k |-> "bytes", v |-> <<9>>],
-                   e_int |-> Num(FromInt(5)), sender |-> AddrOf(81), receiver |-> AddrOf(82), myparty |-> AddrOf(83)],
-         utxos |-> [source |-> <<Utxo(IF id = 2 THEN 200 ELSE 1, 0, 81, 50000000, 7, RecDatum)>>,
-                    collateral |-> <<Utxo(2, 1, 81, 9000000, 0, None)>>],
-         fee |-> FromInt(IF id = 2 THEN 0 ELSE 170000),
-         cfg |-> [slot |-> FromInt(IF id = 2 THEN 5 ELSE 1000), ts |-> FromInt(1700000), network |-> (IF id = 2 THEN 1 ELSE 0), cpb |-> 4310,
-                  mem |-> [k |-> "none"]]]
+CONSTANTS Slots, Envs
 
 VARIABLES slot, expr, envId
 vars == <<slot, expr, envId>>
